@@ -73,7 +73,6 @@ func collectFields(reqCtx *OperationContext, selSet ast.SelectionSet, satisfies 
 			if _, seen := visited[fragmentName]; seen {
 				continue
 			}
-			visited[fragmentName] = true
 
 			fragment := reqCtx.Doc.Fragments.ForName(fragmentName)
 			if fragment == nil {
@@ -88,6 +87,10 @@ func collectFields(reqCtx *OperationContext, selSet ast.SelectionSet, satisfies 
 			if !shouldIncludeNode(sel.Directives, reqCtx.Variables) {
 				continue
 			}
+			// Only a spread that is actually applied counts as visited: one
+			// excluded by @skip/@include must not hide a later spread of the
+			// same fragment.
+			visited[fragmentName] = true
 			shouldDefer, label := deferrable(sel.Directives, reqCtx.Variables)
 
 			for _, childField := range collectFields(reqCtx, fragment.SelectionSet, satisfies, visited) {
